@@ -234,6 +234,29 @@ def fixed_chains(quick):
     return out
 
 
+def ctx_cases():
+    """the SDK's own default stack (Context::resolver(), real HTTP client) against a loopback server that redirects;
+    also shows that the HTTP client itself does not follow redirects (the server must see exactly one request)"""
+    locs = ["http://169.254.169.254/latest/meta-data/", "http://127.0.0.1:{port}/next", "/relative", "http://localhost:{port}/next",
+            "http://[::1]:{port}/next", "http://[::ffff:127.0.0.1]:{port}/next", "http://2130706433:{port}/next", "http://0x7f.1:{port}/next",
+            "http://10.0.0.1/", "http://192.168.1.1/", "http://100.64.0.1/", "http://[fe80::1]/", "http://[fd00::1]/"]
+    return [{"kind": "ctx", "allowed": None, "allow_redirects": True, "location": l} for l in locs] + \
+           [{"kind": "ctx", "allowed": None, "allow_redirects": False, "location": l} for l in ("http://127.0.0.1:{port}/next", "http://example.com/")]
+
+
+def oracle_ctx(ctx, c, r, stats):
+    if r["r"] == "no_loopback":
+        stats["ctx_skipped"] = stats.get("ctx_skipped", 0) + 1
+        return
+    stats["ctx_runs"] = stats.get("ctx_runs", 0) + 1
+    want = "RedirectTargetDisallowed" if c["allow_redirects"] else "RedirectDisallowed"
+    if len(r["served"]) != 1:
+        ctx.report_violation(c, f"default resolver stack: after the redirect to {c['location']!r} the local server saw {r['served']} "
+                                "(the redirect to an internal address was followed, by the SDK or by the HTTP client itself)")
+    elif not (r["r"] == "err" and r.get("kind") == want):
+        ctx.report_violation(c, f"default resolver stack: redirect to {c['location']!r} ended with {r['r']}:{r.get('kind') or r.get('status')}, expected {want}")
+
+
 def corpus():
     p = os.path.join(common.VERIF, "corpus", "C27.jsonl")
     if not os.path.exists(p):
@@ -288,7 +311,9 @@ def evaluate(ctx, cases, with_model=True):
         if r["r"] in ("uri_err", "bad_case"):
             stats["uri_err"] += 1
             continue
-        if k == "chain":
+        if k == "ctx":
+            oracle_ctx(ctx, c, r, stats)
+        elif k == "chain":
             key = r["r"] + ":" + str(r.get("kind") or r.get("status"))
             stats["outcomes"][key] = stats["outcomes"].get(key, 0) + 1
             n = len(r["trace"])
@@ -344,7 +369,7 @@ def run(ctx):
         cases = [ctx.replay["case"]] if "case" in ctx.replay else [d["case"] for d in ctx.replay.get("disagreements", [])]
     else:
         q = ctx.quick()
-        cases = corpus() + fixed_cases(q, ctx.rng) + fixed_chains(q)
+        cases = corpus() + ctx_cases() + fixed_cases(q, ctx.rng) + fixed_chains(q)
         cases += [gen_chain(ctx.rng) for _ in range(400 if q else 6000)]
         cases += [gen_hostcase(ctx.rng) for _ in range(500 if q else 5000)]
         cases += [{"kind": "ipparse", "s": gen_ipstring(ctx.rng)} for _ in range(500 if q else 6000)]
@@ -365,7 +390,7 @@ def run(ctx):
 
 def search(ctx):
     common.build_harness()
-    cases = fixed_cases(False, ctx.rng) + fixed_chains(False)
+    cases = ctx_cases() + fixed_cases(False, ctx.rng) + fixed_chains(False)
     cases += [gen_chain(ctx.rng) for _ in range(8000)] + [gen_hostcase(ctx.rng) for _ in range(8000)]
     cases += [{"kind": "ipparse", "s": gen_ipstring(ctx.rng)} for _ in range(4000)]
     for i, c in enumerate(cases):
